@@ -58,13 +58,45 @@ def ctx_check(res):
     """C15 on structs with CEL rules (incl. a struct-typed field carrying a no-op `required` next to the cel rule):
     an already cancelled context must yield context.Canceled — every such struct has a validated field."""
     rows = [r for r in harness_rows(res.tier, res.seed, n=(200 if res.tier == "thorough" else 0)) if "id" in r]
-    bad = [r for r in rows if r.get("builds") and r.get("ctx") != "canceled"]
-    res.cov["distribution"]["cel-structs:cancelled-context-observed"] = sum(1 for r in rows if r.get("builds"))
-    res.cov["evaluations"] += sum(1 for r in rows if r.get("builds"))
+    bad, n = [], 0
+    for r in rows:
+        if not r.get("builds") or not r.get("ctx"):
+            continue
+        for part in r["ctx"].split(","):
+            k, result, calls = part.split(":")
+            n += 1
+            # the context was observed done iff some Err() call returned non-nil, i.e. more than k calls were made
+            # … and an already cancelled context (k = 0) must be reported by every struct that validates a field
+            if (int(calls) > int(k) or int(k) == 0) and result != "canceled":
+                bad.append((r, int(k), result, int(calls)))
+    res.cov["distribution"]["cel-structs:flipping-context-runs"] = n
+    res.cov["evaluations"] += n
+    if bad:
+        r, k, result, calls = bad[0]
+        res.violation("ctx-cel", {"kind": "ctx-cel", "what": "ValidateContext under a context that is done from its Err() call #%d on (%d calls were made) returned %s instead of context.Canceled" % (k, calls, result),
+                                  "type": r["ftype"], "expression": r["expr"], "extra_markers": r.get("extra", ""), "source": r.get("source", ""), "count": len(bad)}, True)
+        return False
+    return True
+
+
+def build_check(res):
+    """C08 for the documented cel x type combinations: every corpus expression listed in corpus/cel-must-compile.json
+    (they compile today) must still generate, be gofmt-clean and type-check together with its package."""
+    must = set(tuple(x) for x in json.load(open(os.path.join(C.VERIF, "corpus", "cel-must-compile.json")))["must_compile"])
+    rows = [r for r in harness_rows(res.tier, res.seed, n=0) if "id" in r]
+    seen, bad = 0, []
+    for r in rows:
+        if (r["ftype"], r["expr"], r.get("extra", "")) not in must:
+            continue
+        seen += 1
+        if r["gen_exit"] != 0 or not r.get("file") or not r.get("builds"):
+            bad.append(r)
+    res.cov["distribution"]["cel-corpus:must-compile-checked"] = seen
+    res.cov["evaluations"] += seen
     if bad:
         r = bad[0]
-        res.violation("ctx-cel", {"kind": "ctx-cel", "what": "ValidateContext with an already cancelled context returned %s instead of context.Canceled" % r.get("ctx"),
-                                  "type": r["ftype"], "expression": r["expr"], "extra_markers": r.get("extra", ""), "source": r.get("source", ""), "count": len(bad)}, True)
+        res.violation("cel-build", {"kind": "cel-build", "what": "a documented cel x type combination no longer generates / compiles", "type": r["ftype"], "expression": r["expr"],
+                                    "gen_exit": r["gen_exit"], "gen_err": r.get("gen_err", "")[-1500:], "build_err": r.get("build_err", "")[-1500:], "source": r.get("source", ""), "count": len(bad)}, True)
         return False
     return True
 
